@@ -69,6 +69,16 @@ CHECKS["C08"] = dict(
    text="Exploration: accepted generated packages whose type/field/step/enum-symbol/union-tag/dimension/computed-field/namespace names are drawn from target-language reserved words and generated-helper names (pools pre-screened one position at a time by an exhaustive 898-pair sweep), near-colliding names, hostile documentation comments, x generated option sets, plus `yardl init <name>` scaffolds. Oracle: validate exit 0 => generate exit 0 without panic; generated Python byte-compiles and imports; generated C++ passes g++ -std=c++17 -fsyntax-only; no duplicate attribute in a generated Python class; no case-insensitive MATLAB file collision.",
    note="trusted: g++ 12 / python3-vt as the judges of well-formedness; C++ is compiled only with the harness's array header (documented overrideArrayHeader), HDF5 sources and MATLAB code are generated but not compiled/run (no HDF5, no MATLAB)",
    ref="DESIGN.md section 3 (C08)")
+CHECKS["C04"] = dict(
+   technique="metamorphic property-based testing of the embedded schema (neutral vs wire-affecting single edits) plus comparison with a reference schema content derived from the model IR and cross-target literal equality",
+   text="Exploration: generated packages x one edit at a generated position. (a) the schema literal of every protocol parses and its content (protocol, ordered steps, transitive closure of named types with ordered fields, symbols, values, base, alias targets, generic parameters/arguments), recovered by a form-tolerant extractor, equals the content derived from the IR; (b) neutral edits (comments, computed fields, unrelated definitions incl. users of the protocol's types, permutation, re-splitting) leave the literal byte-identical; (c) each of 14 wire-affecting edit kinds that comes with a guaranteed witness value changes it; (d) the literals in generated C++, Python and MATLAB are byte-identical. That written streams carry this literal is asserted by C01/C02.",
+   note="trusted: harness/ref/schema.go (content derivation and extractor, D3 in DESIGN.md)",
+   ref="DESIGN.md section 3 (C04)")
+CHECKS["C14"] = dict(
+   technique="property-based differential testing of generated serializer compositions: plans parsed from generated Python and MATLAB code versus a reference plan derived from the model IR",
+   text="Exploration: for every protocol step (reader and writer side) and every record field of generated packages (incl. imported packages and generic records) the composition of element encodings is parsed out of the generated Python binary module and the generated MATLAB +binary classes (constructor-expression parser plus a constructor table; MATLAB's column-major shape reversal undone) and compared with the plan derived from the IR: field order, fixed lengths, array ranks/shapes, map key/value encodings, enum base types, union case order and null handling, generic arguments. ~16 000 step/field comparisons per quick run. Unknown constructors are counted and skipped.",
+   note="trusted: the constructor tables in harness/ref/plan.go; MATLAB is only read as text (no interpreter); the C++ and Python NDJSON backends are checked dynamically by C01-C03",
+   ref="DESIGN.md section 3 (C14)")
 NOT_YET = {}
 
 props = [json.loads(l) for l in open("properties.jsonl")]
